@@ -74,6 +74,32 @@ add([J.For(J.TTuple([J.TName("k"), J.TName("v")]), J.Call(J.Getattr(N("dd"), "it
      J.Out(J.Filter(J.Call(J.Getattr(N("dd"), "keys")), "join", [C(",")])), J.Out(J.Filter(J.Call(J.Getattr(N("dd"), "values")), "list")),
      J.Out(J.Call(J.Getattr(N("dd"), "get"), [C("a")])), J.Out(J.Call(J.Getattr(N("dd"), "get"), [C("zz"), N("s")])), J.Out(J.Call(J.Getattr(N("dd"), "get"), [C("zz")])),
      J.Set("cy", J.Call(N("cycler"), [C(1), C(2)])), J.Do(J.Call(J.Getattr(N("cy"), "next"))), J.Out(J.Getattr(N("cy"), "current"))], ({"dd": dd, "s": J.vstr(X)},), auto=True)
+# autoescape blocks: lexical vs dynamic mode, macros across modes, blocks in regions, break out of a region
+AE = J.Autoescape
+mac = lambda n, body: J.Macro(n, ["p"], [], body)
+DA_ = ({"s": J.vstr(X), "f": J.vbool(False), "t": J.vbool(True)}, {"s": J.vstr("a<b"), "f": J.vbool(True), "t": J.vbool(False)})
+for auto in (True, False):
+    add([mac("inner", [J.Text("<i>"), J.Out(N("p"))]), mac("outer", [J.Out(J.Call(N("inner"), [N("p")]))]),
+         AE(C(not auto), [J.Out(J.Call(N("outer"), [N("s")])), J.Out(N("s"))]), J.Text("|"), J.Out(J.Call(N("outer"), [N("s")]))], DA_, auto=auto)
+    add([AE(N("f"), [J.Out(N("s")), mac("m", [J.Out(N("p")), J.Out(J.Concat(N("p"), C("<")))]), J.Out(J.Call(N("m"), [N("s")])),
+                     J.SetBlock("sb", [J.Out(N("s"))]), J.Out(N("sb")), AE(C(True), [J.Out(N("s"))])]),
+         J.Out(J.Call(N("m"), [N("s")])), J.Out(N("sb")), J.Out(N("s"))], DA_, auto=auto)
+    add([AE(C(not auto), [J.Out(N("s")), J.Block("b", [J.Out(N("s")), J.Block("c", [J.Out(N("s"))])])]), J.Block("d", [J.Out(N("s")), J.Out(J.Call(J.Getattr(N("self"), "b")))]),
+         AE(N("t"), [J.Block("e", [J.Out(N("s"))]), J.Out(J.Call(J.Getattr(N("self"), "d")))])], DA_, auto=auto)
+    add([mac("m", [J.Text("<b>"), J.Out(N("p"))]), J.For(J.TName("i"), J.List([C(1), C(2)]), [AE(C(not auto), [J.Out(N("s")), J.If([C(True)], [[J.BREAK]])])]),
+         J.Out(J.Call(N("m"), [N("s")])), J.Out(J.Filter(J.List([N("s"), J.Call(N("m"), [C(1)])]), "join", [C(",")]))], DA_, auto=auto)
+    add([J.Import(C("lib.txt"), "L"), J.Out(J.Call(J.Getattr(N("L"), "mp"), [N("s")])), AE(C(not auto), [J.Out(J.Call(J.Getattr(N("L"), "mp"), [N("s")])), J.Include(C("lib.txt"))]), J.Include(C("lib.txt"))],
+        DA_, auto=auto, extra={"lib.txt": ([mac("mp", [J.Text("<m>"), J.Out(N("p"))]), J.Text("<lib>"), J.Out(N("s"))], not auto)})
+# a child template renders nothing outside of blocks
+base = ([J.Text("["), J.Block("b", [J.Text("B0")]), J.Text("]")], True)
+inc = ([J.Text("INC")], True)
+for dyn in (False, True):
+    ext = J.If([N("t")], [[J.Extends(C("base"))]]) if dyn else J.Extends(C("base"))
+    add([ext, J.Macro("m", [], [], [J.Text("M"), J.Out(J.Call(N("caller")))]), J.Include(C("inc")), J.FilterBlock("string", [J.Text("abc")]),
+         J.CallBlock(N("m"), [], [], [J.Text("C")]), J.Out(J.Bin("//", C(1), C(0))) if not dyn else J.Out(N("s")),
+         J.For(J.TName("i"), J.List([C(1)]), [J.Text("F"), J.Block("b", [J.Text("B1"), J.Include(C("inc")), J.FilterBlock("string", [J.Text("x")])]), J.Include(C("inc"))]),
+         J.With([("w", C(1))], [J.Block("c", [J.Text("C1")])]), J.SetBlock("sb", [J.Text("S"), J.Include(C("inc")), J.FilterBlock("string", [J.Text("y")])]),
+         J.Block("d", [J.Out(N("sb"))])], DA_, auto=True, extra={"base": base, "inc": inc})
 res, r = jrun.spec_results("SMOKE", cases)
 print("TLC:", r.distinct, "states", round(r.wall, 1), "s ok=", r.ok, r.invariant_violated)
 bad = 0
